@@ -710,11 +710,14 @@ class SQLTranslator(ASTTranslator):
             aggr_ast = None
             if translator.groupby_monads or (
                     aggr_func_name == 'COUNT' and distinct
-                    and isinstance(translator.expr_type, EntityMeta)
+                    and isinstance(translator.expr_type, (EntityMeta, tuple))
                     and len(translator.expr_columns) > 1):
                 outer_alias = 't'
                 if aggr_func_name == 'COUNT' and not aggr_func_distinct:
                     outer_aggr_ast = [ 'COUNT', None ]
+                    if isinstance(translator.expr_type, tuple):  # distinct rows of several expressions: column names may repeat
+                        select_ast = [ 'DISTINCT' ] + [ [ 'AS', expr_ast, 'expr-%d' % i ]
+                                                        for i, expr_ast in enumerate(translator.expr_columns, 1) ]
                 else:
                     assert len(translator.expr_columns) == 1
                     expr_ast = translator.expr_columns[0]
